@@ -21,13 +21,16 @@ func buildPlan(id string, pinned map[string]string, tier string) *Plan {
 			if _, err := os.Stat("/repo/" + strings.TrimPrefix(pk, "./") + "/zz_verif_contracts_exp.go"); err == nil {
 				p.Units = append(p.Units, Unit{Pkg: pk, Tags: "", Groups: []string{"exp"}})
 			}
+			if _, err := os.Stat("/repo/" + strings.TrimPrefix(pk, "./") + "/zz_verif_contracts_batch.go"); err == nil {
+				p.Units = append(p.Units, Unit{Pkg: pk, Tags: "", Groups: []string{"batch"}})
+			}
 		}
 		p.Trusted = []string{"pinned moduli in /verif/contracts/params.json (published curve parameters)",
 			"product abstraction: a product of two symbolic words is an opaque integer constrained only by its interval bound (sound: only weakens hypotheses)",
 			"lemma schema mulmono: a <= b && c >= 0 ==> a*c <= b*c (hypotheses discharged per instance)"}
 		p.Assumptions = []string{"Element.Exp: z = x^k (k >= 0) / inv(x)^(-k) (k < 0) at the ring layer, with math/big's BitLen / Bit / Neg / Sign / IsUint64 / Uint64 interpreted by their documented meaning (hi(e, i) = floor(e / 2^i), BitLen(e) = L with hi(e, L-1) = 1 for e > 0: assumed contracts of math/big) and the scratch integer taken from the pool as an arbitrary fresh cell; the lemma x^(2h) = (x^h)^2 is proved by induction (theorem block: base and step discharged)",
 			"Element.Div is proved equal to x * inv(y) with inv = Element.Inverse interpreted (not proved) at the ring layer: Inverse's addition chain / Pornin inversion is not under contract"}
-		p.NotCovered = []string{"Inverse, Sqrt, Legendre, BatchInvert, SetRandom: not under contract; the AVX-512 / assembly vector kernels are outside (the portable vector loops are under contract)"}
+		p.NotCovered = []string{"BatchInvert: only totality, result length and the frame (argument unchanged) are under contract, not that the entries are the inverses; Inverse, Sqrt, Legendre, SetRandom: not under contract; the AVX-512 / assembly vector kernels are outside (the portable vector loops are under contract)"}
 		p.Note = "Every arithmetic entry point under contract is verified against its integer-mod-q specification for all inputs and all alias partitions of its pointer operands."
 		return p
 	case "C08":
@@ -220,7 +223,7 @@ func buildPlan(id string, pinned map[string]string, tier string) *Plan {
 			p.Units = append(p.Units, Unit{Pkg: pk, Tags: "", Groups: []string{"polynomial"}})
 		}
 		for _, pk := range iopPkgs("/repo") {
-			p.Units = append(p.Units, Unit{Pkg: pk, Tags: "", Groups: []string{"iop"}})
+			p.Units = append(p.Units, Unit{Pkg: pk, Tags: "", Groups: []string{"iop"}, Deps: []string{strings.TrimSuffix(strings.TrimPrefix(pk, "./"), "/iop") + ":batch"}})
 		}
 		p.Trusted = []string{"ring layer over fr.Element (C01 contracts); Element.Exp is an uninterpreted power a^k at this layer",
 			"math/big.NewInt yields the mathematical integer of its argument (assumed contract of math/big)",
@@ -229,10 +232,10 @@ func buildPlan(id string, pinned map[string]string, tier string) *Plan {
 		p.Assumptions = []string{"Polynomial.Eval and MultiLin.Sum require a non-empty coefficient vector (they index the last / first entry unconditionally: an empty vector panics)",
 			"iop.Polynomial.GetCoeff: contract for the Regular layout, 0 <= shift <= 2^20, 0 <= i <= 2^40 (machine-integer range of i + rho*shift); a negative shift makes the Go remainder negative and panics (not repaired: recorded as an observation)",
 			"iop.Polynomial.Evaluate: size >= 0; explicit panics (fft.Generator refusing the size) are refusals, not results"}
-		p.NotCovered = []string{"evaluation in Lagrange bases and in the bit-reversed layout (polynomial.evaluate is under contract for Canonical/Regular only)",
+		p.NotCovered = []string{"evaluation in the bit-reversed layout; in Lagrange bases only the value at the points of the domain is under contract (the stored evaluation is returned), the barycentric formula away from the domain is not",
 			"basis and layout conversions (FFT, bit reversal), ratios, quotient by the vanishing polynomial, expression evaluation, serialisation: not under contract",
 			"InterpolateOnRange, MultiLin.Evaluate / Eq / FoldParallel, pools: not under contract"}
-		p.Note = "Dense polynomials: Eval is Horner's value of sum p[j] X^j (recursive specification); Add, Sub, Scale, ScaleInPlace, Add/SubConstantInPlace, Set, Clone, Equal, SetZero, MultiLin.Fold / Add / Sum / Clone and EvalEq act coefficient-wise as their definitions say, with the result length prescribed, for all identical-slice aliasings of their operands. IOP polynomials: Evaluate passes exactly base * w^shift to the evaluation of the shared coefficient vector, for every integer shift, with w the generator of order Size and base = x (or x / coset in LagrangeCoset form); Clone / ShallowClone / NewPolynomial / Shift preserve every field of the object (shift, size, coset, form, coefficients); GetCoeff reads entry (i + (n/size) * shift) mod n in the Regular layout."
+		p.Note = "Dense polynomials: Eval is Horner's value of sum p[j] X^j (recursive specification); Add, Sub, Scale, ScaleInPlace, Add/SubConstantInPlace, Set, Clone, Equal, SetZero, MultiLin.Fold / Add / Sum / Clone and EvalEq act coefficient-wise as their definitions say, with the result length prescribed, for all identical-slice aliasings of their operands. IOP polynomials: evaluate returns the stored evaluation at every point of the domain in Lagrange form (Regular layout); Evaluate passes exactly base * w^shift to the evaluation of the shared coefficient vector, for every integer shift, with w the generator of order Size and base = x (or x / coset in LagrangeCoset form); Clone / ShallowClone / NewPolynomial / Shift preserve every field of the object (shift, size, coset, form, coefficients); GetCoeff reads entry (i + (n/size) * shift) mod n in the Regular layout."
 		return p
 	case "C19":
 		p := &Plan{ID: id}
